@@ -6,6 +6,9 @@ proof part    : Props/C10.lean (all rotations and inversion, all tensors, any nu
                 and the `main` FX graph translated by fx2ir with the uuu sub-modules inlined)
 correspondence: driver C10: every entry of the exact Q against the float buffer (≤ 1e-12), irreps / dims / group / orbit count
                 against the real code, the exact program output against the real forward on integer inputs
+histories     : CartesianTensor objects with DIFFERENT formulas but EQUAL irreps (they are equal/hash-equal as tuples) created and used
+                in both orders within this process; after every call the object's round trips are checked against its OWN formula and
+                its change_of_basis against a directly built ReducedTensorProducts
 search        : numeric oracles on the real modules of the whole family (orthonormality, every symmetry of the generated group,
                 rank, completeness against reduce_permutation's projector, equivariance under random rotations and inversion via
                 D_from_matrix, main vs einsum, CartesianTensor round trips); any failure -> violation with a concrete replay
@@ -156,6 +159,150 @@ def cartesian_oracles(ctx, formula, rng_t, tol=1e-9):
     if dev > tol:
         bad.append((f"CartesianTensor/equivariance/{formula}", dict(base, R=R.tolist(), t=t.tolist(), max_dev=dev)))
     return bad
+
+
+# ---------------------------------------------------------------------------------------------- CartesianTensor histories
+# formulas on 1o indices whose CartesianTensor objects are EQUAL as Irreps (hash/== of the tuple subclass ignore the formula)
+# although their symmetric subspaces differ: anything keyed on the object (caches, memoisation) must not mix them up
+EQUAL_IRREPS_GROUPS = [
+    ["ijk=jik", "ijk=ikj", "ijk=kji"],            # all 2x1o+1x2o+1x3o
+    ["ijk=-jik", "ijk=-ikj", "ijk=-kji"],         # all 1x0o+1x1o+1x2o
+    ["ij=ji", "ij=ji"],                           # control: same formula twice
+]
+EQUAL_IRREPS_GROUPS_THOROUGH = [
+    ["ijkl=jikl", "ijkl=ijlk", "ijkl=ikjl"],
+    ["ijkl=jikl=klij", "ijkl=ikjl=jlik"],
+    ["ijk=jki", "ijk=kij"],                       # the same cyclic group written two ways
+]
+
+
+class CTHistory:
+    """one process-wide history of CartesianTensor constructions and calls; after EVERY call the full round-trip
+    property of the called object is checked against ITS OWN formula"""
+
+    def __init__(self, ctx, gen):
+        self.ctx, self.gen = ctx, gen
+        self.hist = []
+        self.objs = []          # (formula, CartesianTensor)
+        self.fresh = {}         # formula -> (change_of_basis of a ReducedTensorProducts built directly, group, terms)
+        self.failed = set()
+
+    def reference(self, formula):
+        if formula not in self.fresh:
+            from e3nn import o3
+            from e3nn.math import germinate_formulas
+            f0 = formula.split("=")[0].replace("-", "")
+            rtp = o3.ReducedTensorProducts(formula, **{i: "1o" for i in f0})
+            _, G = germinate_formulas(formula)
+            _, terms = F.formula_terms(formula)
+            self.fresh[formula] = (rtp.change_of_basis.detach().clone(), sorted(G), terms, str(rtp.irreps_out))
+        return self.fresh[formula]
+
+    def fail(self, check, formula, **kw):
+        key = f"CartesianTensor/history/{check}"
+        if key in self.failed:
+            return
+        self.failed.add(key)
+        self.ctx.violation(key, dict(history=list(self.hist), object_formula=formula,
+                                     other_formulas_with_equal_irreps_used_before=sorted({f for f, _ in self.objs if f != formula}), **kw), True)
+
+    def create(self, formula):
+        from e3nn import io
+        self.hist.append(f"x{len(self.objs)} = CartesianTensor({formula!r})")
+        try:
+            ct = io.CartesianTensor(formula)
+        except Exception as e:
+            self.fail("constructor-raises", formula, error=f"{type(e).__name__}: {str(e)[:200]}")
+            return None
+        ref = self.reference(formula)
+        if str(ct) != ref[3] or ct.formula != formula:
+            self.fail("irreps", formula, got=str(ct), expected=ref[3])
+        self.objs.append((formula, ct))
+        return len(self.objs) - 1
+
+    def use(self, k, op):
+        formula, ct = self.objs[k]
+        Qref, G, terms, _ = self.reference(formula)
+        n = len(ct.indices)
+        g = self.gen
+        self.hist.append(f"x{k}.{op}   # {formula}")
+        self.ctx.traces += 1
+        try:
+            if op == "reduced_tensor_products":
+                rtp = ct.reduced_tensor_products()
+                dev = (rtp.change_of_basis - Qref).abs().max().item() if tuple(rtp.change_of_basis.shape) == tuple(Qref.shape) else float("inf")
+                if dev > 1e-12:
+                    self.fail("change_of_basis-differs-from-fresh-module", formula, max_dev=dev)
+            elif op == "to_from":
+                t = torch.randn(2, *([3] * n), generator=g, dtype=torch.float64)
+                back = ct.to_cartesian(ct.from_cartesian(t))
+                proj = sum(s * t.permute(0, *[1 + i for i in p]) for s, p in G) / len(G)
+                dev = (back - proj).abs().max().item()
+                if dev > 1e-9:
+                    self.fail("to-from-is-not-the-projection-of-this-formula", formula, t=t.tolist(), max_dev=dev,
+                              expected="orthogonal projection onto the tensors with the symmetries of object_formula (signed group average)")
+            elif op == "to_symmetric":
+                v = torch.randn(2, ct.dim, generator=g, dtype=torch.float64)
+                c = ct.to_cartesian(v)
+                for s, p in terms:
+                    dev = (c - s * c.permute(0, *[1 + i for i in p])).abs().max().item()
+                    if dev > 1e-9:
+                        self.fail("to_cartesian-lacks-the-symmetry-of-this-formula", formula, v=v.tolist(), term=[s, list(p)], max_dev=dev)
+                        break
+            elif op == "from_to":
+                v = torch.randn(2, ct.dim, generator=g, dtype=torch.float64)
+                dev = (ct.from_cartesian(ct.to_cartesian(v)) - v).abs().max().item() if ct.dim else 0.0
+                if dev > 1e-9:
+                    self.fail("from-to-identity", formula, v=v.tolist(), max_dev=dev)
+            elif op == "from_vectors":
+                xs = [torch.randn(2, 3, generator=g, dtype=torch.float64) for _ in range(n)]
+                ref = torch.einsum("z" + "abcdefgh"[:n] + "," + ",".join("B" + ch for ch in "abcdefgh"[:n]) + "->Bz", Qref, *xs)
+                dev = (ct.from_vectors(*xs) - ref).abs().max().item() if ct.dim else 0.0
+                if dev > 1e-9:
+                    self.fail("from_vectors-vs-fresh-change_of_basis", formula, xs=[x.tolist() for x in xs], max_dev=dev)
+        except Exception as e:
+            self.fail(f"{op}-raises", formula, error=f"{type(e).__name__}: {str(e)[:200]}")
+
+
+CT_OPS = ["reduced_tensor_products", "to_from", "to_symmetric", "from_to", "from_vectors"]
+
+
+def cartesian_histories(ctx, gen):
+    groups = EQUAL_IRREPS_GROUPS + (EQUAL_IRREPS_GROUPS_THOROUGH if ctx.tier == "thorough" else [])
+    H = CTHistory(ctx, gen)          # ONE history for the whole process: caches survive between the sequences
+    # deterministic: every group in both orders; (a) create all, then use all; (b) create-and-use one after the other
+    for grp in groups:
+        for order in (grp, grp[::-1]):
+            ks = [H.create(f) for f in order]
+            for k in ks:
+                if k is not None:
+                    for op in CT_OPS:
+                        H.use(k, op)
+            for f in order:
+                k = H.create(f)
+                if k is not None:
+                    for op in CT_OPS[:3]:
+                        H.use(k, op)
+            ctx.case("CartesianTensor history " + " -> ".join(order))
+            ctx.count("CartesianTensor history deterministic")
+    # seeded op sequences over everything created so far and fresh objects
+    flat = sorted({f for grp in groups for f in grp})
+    for _ in range(4 if ctx.tier == "quick" else 25):
+        steps = []
+        for _ in range(ctx.rng.randint(4, 9)):
+            if ctx.rng.random() < 0.35 or not H.objs:
+                f = ctx.rng.choice(flat)
+                k = H.create(f)
+                steps.append(f"new {f}")
+            else:
+                k = ctx.rng.randrange(len(H.objs))
+            if k is not None:
+                op = ctx.rng.choice(CT_OPS)
+                H.use(k, op)
+                steps.append(f"x{k}.{op}")
+        ctx.case("CartesianTensor seeded history " + " ; ".join(steps), sample_every=5)
+        ctx.count("CartesianTensor history seeded")
+    ctx.notes["cartesian_history_steps"] = len(H.hist)
 
 
 # ---------------------------------------------------------------------------------------------- Lean side
@@ -400,6 +547,8 @@ def run(ctx: Ctx):
                         ctx.violation(key + ("" if dt == torch.float64 else "/float32"), rep, True)
             finally:
                 torch.set_default_dtype(torch.float64)
+        # histories: objects with different formulas but equal irreps, used one after the other in this process
+        cartesian_histories(ctx, g)
     finally:
         torch.set_default_dtype(old_dtype)
 
